@@ -381,36 +381,38 @@ class Engine:
 
 
 def discharge(o: Obligation, timeout_ms=20000):
-    """Decide one obligation with z3; fall back to alternative tactics on unknown."""
+    """Decide one obligation with z3.  A portfolio: queries over quantifier-free nonlinear / div-mod arithmetic are unstable (the same
+    formula is proved in 0.1 s or not in 60 s depending on variable numbering and load), so several short attempts (default, two other
+    seeds, the other arithmetic solver) come first, then the full budget, then the nonlinear tactic, before the obligation is given up as unknown."""
     if o.status == "proved" and o.backend == "eval":
         return o
     t0 = time.time()
-    s = z3.Solver()
-    s.set("timeout", timeout_ms)
-    for f in o.pc:
-        s.add(f)
-    s.add(z3.Not(o.goal))
-    r = s.check()
-    o.backend = "z3"
-    if r == z3.unknown:
-        o.reason = s.reason_unknown()
-        # second attempt: different arithmetic solver settings
-        for params in ({"smt.arith.solver": 2}, {"smt.arith.nl.nra": True, "smt.random_seed": 7}):
-            s2 = z3.Solver()
-            s2.set("timeout", timeout_ms)
-            for k, v in params.items():
-                try:
-                    s2.set(k, v)
-                except Exception:
-                    pass
-            for f in o.pc:
-                s2.add(f)
-            s2.add(z3.Not(o.goal))
-            r = s2.check()
-            if r != z3.unknown:
-                s = s2
-                o.backend = "z3(alt)"
-                break
+    short = max(2000, timeout_ms // 6)
+    attempts = [({}, short, "z3"),
+                ({"smt.random_seed": 11}, short, "z3(seed 11)"), ({"smt.arith.solver": 2}, short, "z3(alt)"),
+                ({"smt.random_seed": 23, "smt.phase_selection": 5}, short, "z3(seed 23)"),
+                ({}, timeout_ms, "z3"),
+                ({"smt.arith.nl.nra": True, "smt.random_seed": 7}, timeout_ms // 2, "z3(alt)")]
+    r, s = z3.unknown, None
+    for n_try, (params, budget, name) in enumerate(attempts):
+        s = z3.Solver()
+        s.set("timeout", int(budget))
+        for k, v in params.items():
+            try:
+                s.set(k, v)
+            except Exception:
+                pass
+        for f in o.pc:
+            s.add(f)
+        s.add(z3.Not(o.goal))
+        r = s.check()
+        if n_try == 0:
+            o.backend = "z3"
+        if r != z3.unknown:
+            o.backend = name
+            break
+        if n_try == 0:
+            o.reason = s.reason_unknown()
     o.seconds = time.time() - t0
     if r == z3.unsat:
         o.status = "proved"
